@@ -49,8 +49,14 @@ func main() {
 	runs := flag.Int("runs", 24, "repetitions of PrepareGrammar per grammar")
 	flag.Parse()
 	p := gen.ProfileByName(*profile)
-	for i := 0; i < *n; i++ {
-		rules, _, _ := gen.GenGrammar(p, *seed*1000003+int64(i))
+	fam := gen.LRFamily()
+	for i := -len(fam); i < *n; i++ {
+		var rules []*gen.Rule
+		if i < 0 {
+			rules = fam[-i-1] // the systematic family first, then the random grammars
+		} else {
+			rules, _, _ = gen.GenGrammar(p, *seed*1000003+int64(i))
+		}
 		set := map[string]bool{}
 		for k := 0; k < *runs; k++ {
 			set[outcome(rules)] = true
@@ -60,7 +66,11 @@ func main() {
 			outs = append(outs, o)
 		}
 		sort.Strings(outs)
-		fmt.Printf("%s-%d-%d|%s|%s|%s\n", *profile, *seed, i, gen.AstGrammarSexp(rules), strings.Join(outs, ";"),
+		id := fmt.Sprintf("%s-%d-%d", *profile, *seed, i)
+		if i < 0 {
+			id = fmt.Sprintf("%s-fam-%d", *profile, -i-1)
+		}
+		fmt.Printf("%s|%s|%s|%s\n", id, gen.AstGrammarSexp(rules), strings.Join(outs, ";"),
 			strings.ReplaceAll(gen.GrammarText(rules), "\n", "\x1f"))
 	}
 }
